@@ -390,6 +390,29 @@ def _takes_apart(fc, reach):
 def rule_uses(ctx):
     R = "C09.5"
     ctx.rule(R, "variable uses are recorded in the class of the variable's type (local / signal / component) for reads (Variable, Access, Update = read of the previous whole-array version) and writes (Substitution), and every child's reads are merged into its parent for all three classes")
+    # evaluation first: both cache_variable_use functions on one instance of every variant (children with known read
+    # sets) for every declared kind of the node's own variable; the shape obligations below are the fallback
+    decided = {}
+    try:
+        import c09eval
+        from finfun import Unsupported as _Uns
+
+        for enum, f_, own in (("Expression", EI, {"Variable": "read", "Access": "read", "Update": "read"}), ("Statement", SI, {"Substitution": "written"})):
+            try:
+                n_w, bad_ = c09eval.evaluate(enum, f_, own)
+            except _Uns as u:
+                ctx.note("%s::cache_variable_use is outside the evaluator's subset (%s): shape obligations apply" % (enum, u))
+                continue
+            decided[enum] = True
+            ctx.floor(R, "%s use worlds evaluated" % enum, n_w, 10)
+            en_ = a10.enum_def(IR, enum) or {}
+            for v_ in en_:
+                keys_ = [k_ for k_ in bad_ if k_.startswith("%s::%s/" % (enum, v_))]
+                ctx.check(R, "%s::%s/uses-recorded-and-merged" % (enum, v_), not keys_, "; ".join("%s: %s" % (k_.split("/")[-1], bad_[k_]) for k_ in keys_[:3]) or "the stored sets are the children's sets plus the node's own use in the class of its declared kind", EI if enum == "Expression" else SI)
+    except ImportError:
+        pass
+    if decided.get("Expression") and decided.get("Statement"):
+        return
     fn = find_fn(EI, "cache_variable_use", "VariableMeta for Expression")
     if fn is None:
         return ctx.missing(R, "Expression::cache_variable_use")
